@@ -35,7 +35,10 @@ def bases(ctx):
                 L2 = list(cfgl) + ["snap", G.NOFIRE, G.op(0, "get", KEY), G.op(0, "touch", KEY), G.op(0, "ensure", KEY, "val:P:1"), G.op(0, "put", ("k2", 1, 2), "W", 1),
                                    G.op(0, "set", ("k5", 2, 3), "Q", 1), G.op(0, "ensure", ("k3", 5, 6), "val:P:1"), G.op(0, "get", ("k5", 2, 3)), "snap"]
                 # two hours later, another process writes with maintenance firing
-                L3 = list(cfgl) + [G.FIRE, G.op(0, "set", ("k4", 7, 9), "W", 1), G.op(0, "get", KEY), "snap", G.NOFIRE, G.op(0, "set", KEY, "Q", 1), G.op(0, "get", KEY), "snap"]
+                # ... while a peer whose clock runs AHEAD of that process is still writing a temp file in every
+                # temp directory (its modification time lies in the maintainer's future): young, to be left alone
+                tdirs = ["w/.kismet_temp"] if w[0] == "plain" else ["w/%s/.kismet_temp" % G.shard_name(i) for i in range(w[1])]
+                L3 = list(cfgl) + ["plant %s/ahead z 600 {AHEAD} {AHEAD}" % td for td in tdirs] + [G.FIRE, G.op(0, "set", ("k4", 7, 9), "W", 1), G.op(0, "get", KEY), "snap", G.NOFIRE, G.op(0, "set", KEY, "Q", 1), G.op(0, "get", KEY), "snap"]
                 out.append(({"kind": kind, "pre": pname, "op": opk, "w": w}, L1, L2, L3))
     return out
 
@@ -68,6 +71,7 @@ def enumerate_crashes(ctx, cases=None):
             d = r1.dir
             r2 = S.run_impl(L2, reuse=d, keep=True)
             future = int((time.time() + 7300) * 10**9)
+            L3 = [l.replace("{AHEAD}", str(future + 300 * 10**9)) for l in L3]
             r3 = S.run_impl(L3, reuse=d, keep=True, clock=(future, 1000))
             a1 = S.augment(L1, r1, crash_by_step=({1: k} if seq is not None else None))
             a2 = S.augment([l for l in L2 if not l.startswith(("root", "writer", "reader", "checker", "autosync", "handles", "build"))], r2)
